@@ -295,3 +295,75 @@ def check_loaded(op: int, s1: int, s2: int, v: int) -> bool:
         if xtuml.serialize_value(exp_id, 'UNIQUE_ID') not in txt:
             LAST_DIFF = ('serialized identifier', txt); return False
     return True
+
+
+def check_two_models(sa: int, sb: int, sc: int, first: int, va: int, vb: int) -> bool:
+    """
+    pre: 0 <= sa < 4 and 0 <= sb < 4 and 0 <= sc < 2 and 0 <= first < 2
+    pre: 0 < va < vb
+    post: POST(_)
+    """
+    # TWO metamodels in one process declare a class with the same key letters but spell the attribute differently
+    # (Val / vAL); whatever was read or written on one model first, every spelling on the other model addresses that
+    # model's own single value (nothing about names may be remembered across metamodels)
+    global LAST_DIFF
+    SPL = [0, 7, 2, 5]       # val VAL vAl VaL
+    sa = SPL[cs(sa, 0, 3)]; sb = SPL[cs(sb, 0, 3)]; sc = SPL[2 + cs(sc, 0, 1)]; first = cs(first, 0, 1)
+    with notrace():
+        m1 = xtuml.MetaModel(xtuml.IntegerGenerator()); m1.define_class('Kq', [('Id', 'unique_id'), ('Val', 'integer')])
+        m2 = xtuml.MetaModel(xtuml.IntegerGenerator()); m2.define_class('Kq', [('vAL', 'integer'), ('Id', 'unique_id')])
+    order = [m1, m2] if first == 0 else [m2, m1]
+    x = order[0].new('Kq')
+    setattr(x, sp('val', sa), va)
+    r1 = getattr(x, sp('val', sb))
+    y = order[1].new('Kq')
+    y2 = order[1].new('Kq')
+    setattr(y, sp('val', sb), vb)
+    case('two_models', sa, sb, sc, first)
+    if not (r1 == va):
+        LAST_DIFF = ('first model', sa, sb); return False
+    for s in range(8):
+        if s not in (sb, sc, 7):
+            continue
+        if not (getattr(y, sp('val', s)) == vb):
+            LAST_DIFF = ('second metamodel: value written as %s read as something else under %s' % (sp('val', sb), sp('val', s)), first); return False
+        if not (getattr(y2, sp('val', s)) == 0):
+            LAST_DIFF = ('second metamodel: sibling instance', sp('val', s)); return False
+    declared = 'vAL' if order[1] is m2 else 'Val'
+    if [k for k in vars(y) if k.upper() == 'VAL'] not in ([declared], []):
+        LAST_DIFF = ('second metamodel: value stored under a stray name', sorted(vars(y))); return False
+    got = list(order[1].select_many('Kq', where_eq(**{sp('val', sc): vb})))
+    exp = [z for z in (y, y2) if (vb if z is y else 0) == vb]
+    if len(got) != len(exp) or any(g is not e for g, e in zip(got, exp)):
+        LAST_DIFF = ('second metamodel: where_eq under another spelling', sp('val', sc)); return False
+    return True
+
+
+def check_late_class(a: int, b: int, which: int) -> bool:
+    """
+    pre: 0 <= a < 4 and 0 <= b < 4 and 0 <= which < 4
+    post: POST(_)
+    """
+    # a class looked up (and correctly not found) BEFORE it is defined is found under every spelling afterwards
+    global LAST_DIFF
+    a = cs(a, 0, 3); b = cs(b, 0, 3); which = cs(which, 0, 3)
+    with notrace():
+        m = mk()
+    probes = [lambda n: m.find_class(n), lambda n: m.find_metaclass(n), lambda n: m.new(n), lambda n: m.select_any(n)]
+    try:
+        probes[which](sp('zq', a))
+        LAST_DIFF = ('undefined class found', a, which); return False
+    except xtuml.UnknownClassException:
+        pass
+    m.define_class(sp('zq', b), [('Id', 'unique_id'), ('N', 'integer')])
+    case('late', a, b, which)
+    try:
+        z = m.new(sp('zq', a), N=5)
+        for s in range(4):
+            if m.find_metaclass(sp('zq', s)) is not xtuml.get_metaclass(z) or m.find_class(sp('zq', s)) is not type(z):
+                LAST_DIFF = ('class defined after a failed lookup is not addressed by the spelling', sp('zq', s)); return False
+            if list(m.select_many(sp('zq', s))) != [z] or m.select_any(sp('zq', s)) is not z:
+                LAST_DIFF = ('selection under the spelling', sp('zq', s)); return False
+    except xtuml.UnknownClassException:
+        LAST_DIFF = ('class defined after a failed lookup under the spelling %s is unknown under that spelling' % sp('zq', a), b, which); return False
+    return True
